@@ -32,6 +32,10 @@
         never fires a timeout for a round the node has not entered is itself proved
         (Lemmas/NodeSched.lean: every scheduled timeout is for a round the node has entered).
 
+    L9  proof of lock, over every run (Lemmas/NodeLock.lean): whenever the node holds a lock, its
+        prevote set of `lockedRound` reports +2/3 for the locked block - a lock is taken or renewed
+        only on that majority, and with L2 (`doPrevote` prevotes the locked block) every prevote
+        cast under a lock is for a block that had a polka in the lock's round.
   PARTIAL (named): L2/L3/L5 (prevote and proposal follow the lock; the lock is released only by a
   later polka) hold for every state and argument, reachable or not, so they hold along every run;
   their lift to a ghost history ("the lock held at round r was taken on a polka and no later polka
@@ -42,6 +46,7 @@ import AnnVerif.Model.Node
 import AnnVerif.Lemmas.NodeMono
 import AnnVerif.Lemmas.NodeJust
 import AnnVerif.Lemmas.NodeSched
+import AnnVerif.Lemmas.NodeLock
 namespace AnnVerif.C04
 open AnnVerif AnnVerif.Node
 
@@ -313,5 +318,23 @@ theorem step_keeps_precommits_justified (n : Node) (i : In) (q : QJ n) (hw : Wel
 /-- non-vacuity: in `demo` the own precommit for "b" sits in the queue... after the drain it has
     been handled; one step earlier it is there, and the polka is in the prevote set -/
 example : maj23 (prevotes demo 0) = some (bidOf [0x62]) := by decide
+
+/-! ### L9: proof of lock, over every run -/
+
+theorem run_lock_backed_by_polka (cfg : Cfg) (height : Int) (vals : ValSet.ValSet) (me : Option Nat) (skip : Bool)
+    (ins : List In) (b : Name)
+    (hl : (ins.foldl stepIn (Node.init cfg height vals me skip)).lockedBlock = some b) :
+    ∃ bid, maj23 (prevotes (ins.foldl stepIn (Node.init cfg height vals me skip))
+        (ins.foldl stepIn (Node.init cfg height vals me skip)).lockedRound) = some bid ∧ bid.hash = b :=
+  lj_run ins _ (init_lj cfg height vals me skip) b hl
+
+/-- inductive from any state that satisfies it -/
+theorem step_keeps_lock_backed (n : Node) (i : In) (l : LJ n) : LJ (stepIn n i) := lj_stepIn n i l
+
+example : LJ demo ∧ demo.lockedBlock = some [0x62] := by
+  refine ⟨?_, by decide⟩
+  intro b hb
+  exact ⟨bidOf [0x62], by decide, by have : demo.lockedBlock = some [0x62] := by decide
+                                     rw [this] at hb; cases hb; rfl⟩
 
 end AnnVerif.C04
